@@ -27,23 +27,32 @@ THEOREMS = {
 GEN = dict(inplace=True, p_inplace=0.12, p_view=0.4, p_fail=0.0, p_const=0.08, n_stmts=9)
 
 
+def _addresses(a):
+    """the memory address of every element of `a` (an int64 array of a's shape)"""
+    ptr = a.__array_interface__["data"][0]
+    addr = np.full(a.shape, ptr, dtype=np.int64)
+    for ax, (n, st) in enumerate(zip(a.shape, a.strides)):
+        shp = [1] * a.ndim
+        shp[ax] = n
+        addr = addr + (np.arange(n, dtype=np.int64) * st).reshape(shp)
+    return addr
+
+
 def label_view(b_arr, v_arr):
-    """for every element of the view `v_arr` of `b_arr`: its logical (C-order) flat index in `b_arr`; None if b_arr
-    is not an owning array that is contiguous in some axis order (C, Fortran, any 'K' layout)"""
-    if b_arr.base is not None or b_arr.itemsize != 8:
-        return None
+    """for every element of the view `v_arr` of `b_arr`: its logical (C-order) flat index in `b_arr`, found through
+    the elements' memory addresses (any layout of either array; `b_arr` need not own its memory); None if `b_arr`
+    repeats an element (stride 0) or `v_arr` reaches memory that is not an element of `b_arr`"""
     if v_arr.size == 0:
         return np.zeros(v_arr.shape, dtype=np.int64)
-    labels = np.empty_like(b_arr, dtype=np.int64)  # same memory layout as b_arr
-    if labels.strides != b_arr.strides:
+    ab = _addresses(b_arr).reshape(-1)
+    if len(set(ab.tolist())) != ab.size:
         return None
-    labels[...] = np.arange(b_arr.size, dtype=np.int64).reshape(b_arr.shape)
-    mem = labels.ravel(order="K")  # the memory image (a view: `labels` is contiguous in its axis order)
-    if not np.shares_memory(mem, labels):
+    where = {int(a): k for k, a in enumerate(ab.tolist())}
+    av = _addresses(v_arr)
+    try:
+        return np.array([where[int(a)] for a in av.reshape(-1).tolist()], dtype=np.int64).reshape(v_arr.shape)
+    except KeyError:
         return None
-    bp = b_arr.__array_interface__["data"][0]
-    vp = v_arr.__array_interface__["data"][0]
-    return np.ndarray(shape=v_arr.shape, dtype=np.int64, buffer=mem, offset=vp - bp, strides=v_arr.strides).copy()
 
 
 def check_views(tensors, only=None):
@@ -213,6 +222,56 @@ def seed_case(kind):
     return [(cls, f"L=b*2; v=L[0]; L.backward(<{kind} array>): {msg}") for cls, msg in fails]
 
 
+# views taken *after* backward(), from bases of several memory layouts (the gradient a base keeps must have the layout
+# of its data, or a layout-dependent chain — transpose then reshape — yields a copy of it instead of a view)
+LATER_BASES = [
+    ("C-owner", lambda: mg.tensor(np.arange(12.0).reshape(3, 4) + 1)),
+    ("F-owner", lambda: mg.tensor(np.asfortranarray(np.arange(12.0).reshape(3, 4) + 1))),
+    ("former-view:T", lambda: (mg.tensor(np.arange(12.0).reshape(4, 3) + 1)).T),
+    ("former-view:swap3d", lambda: mg.swapaxes(mg.tensor(np.arange(24.0).reshape(2, 3, 4) + 1), 0, 2)),
+    ("former-view:slice", lambda: (mg.tensor(np.arange(24.0).reshape(6, 4) + 1))[::2]),
+]
+LATER_CONSUMERS = [
+    ("square", lambda b: (b * b).sum()),
+    ("scaled", lambda b: (b * 2.0).sum()),
+    ("through-view", lambda b: (b[0] * 3.0).sum() + (b * b).sum()),
+    ("view-only", lambda b: (b[1:] * 3.0).sum()),
+]
+LATER_CHAINS = [
+    ("T", lambda b: b.T),
+    ("T.reshape(-1)", lambda b: b.T.reshape(-1)),
+    ("reshape(-1)", lambda b: b.reshape(-1)),
+    ("T.reshape(-1)[::2]", lambda b: b.T.reshape(-1)[::2]),
+    ("[1:]", lambda b: b[1:]),
+    ("T[1:].T", lambda b: b.T[1:].T),
+    ("ravel", lambda b: b.ravel()),
+]
+
+
+def later_view_case(args):
+    bi, ci, vi = args
+    bname, mkb = LATER_BASES[bi]
+    cname, cons = LATER_CONSUMERS[ci]
+    vname, chain = LATER_CHAINS[vi]
+    keep = []
+    b = mkb()
+    keep.append(b.base)
+    L = cons(b)
+    L.backward()
+    v = chain(b)
+    fails = []
+    if v.base is not None and v.size and not np.shares_memory(v.data, v.base.data):
+        fails.append(("view-without-shared-data", "a tensor with a base does not share memory with it"))
+    owner = v.base if v.base is not None else None
+    if owner is not None:
+        fails += check_views({0: owner, 1: v})
+        # the gradient the (possibly just disconnected) base keeps is the one it reported before the view was taken
+        if owner is b and b.grad is None:
+            fails.append(("base-grad-lost", "the base lost its gradient when a view of it was taken"))
+    return {"base": bname, "consumer": cname, "chain": vname, "fails": fails, "args": list(args),
+            "is_view": v.base is not None}
+
+
 def nontrivial(prog):
     f = progs.features(prog)
     return sum(v for k, v in f.items() if k.startswith("view")) >= 2
@@ -280,7 +339,9 @@ def run(ctx: Ctx) -> Outcome:
     out.rule = ("(a) random single-epoch programs with many views, one backward: for every (view, base) pair value, availability "
                 "and memory sharing of the gradients, and no sharing between gradients of unrelated tensors; (b) 17 view chains x "
                 "every ordering of 1..3 of 9 consumers (so that each contribution arrives first) x 2 seed kinds; (c) the model's "
-                "reshape view-or-copy rule vs NumPy on random strided windows")
+                "reshape view-or-copy rule vs NumPy on random strided windows; (d) 140 histories in which the view chain is taken "
+                "*after* backward() from a C-/Fortran-ordered owner or from a former view (transposed, axis-swapped, strided) that "
+                "becomes a base by being viewed")
     seen = engcheck.report(out, results, "C06", oracle)
     # multi-epoch histories (several backward / clear_graph / null_grad calls; views of tensors that were views earlier)
     out2, results2 = engcheck.run_programs(ctx, ctx.n(1200, 5000), dict(GEN, n_stmts=ctx.n(12, 18), multi_back=True, p_inplace=0.06),
@@ -313,6 +374,23 @@ def run(ctx: Ctx) -> Outcome:
         out.evaluations += 1
         for cls, msg in seed_case(kind):
             out.violations.append(Violation(f"C06|{cls}|{kind}-seed", msg, {"kind": "seed", "seed": kind}))
+    litems = [(bi, ci, vi) for bi in range(len(LATER_BASES)) for ci in range(len(LATER_CONSUMERS)) for vi in range(len(LATER_CHAINS))]
+    lres = pmap(later_view_case, litems)
+    lseen = set()
+    nview = 0
+    for r in lres:
+        out.evaluations += 1
+        if r["is_view"]:
+            nview += 1
+            out.nontrivial.add(stable_hash(["later", r["args"]]))
+        for cls, msg in r["fails"]:
+            sig = f"C06|{cls}|later-view|{r['base'].split(':')[0]}"
+            if sig in lseen:
+                continue
+            lseen.add(sig)
+            out.violations.append(Violation(sig, f"base {r['base']}, loss {r['consumer']}, backward(), then v = b.{r['chain']}: {msg}",
+                                            {"kind": "later", "args": r["args"]}))
+    out.stats["later_view_cases"] = {"cases": len(lres), "chain_is_a_view": nview}
     layout_corr(ctx, out)
     out.assumptions = ["H_layout: the base's gradient has the memory layout of the base's data (monitored on every case)"]
     return out
@@ -335,6 +413,10 @@ def replay(data) -> bool:
         f = seed_case(r["seed"])
         print(f)
         return bool(f)
+    if r.get("kind") == "later":
+        res = later_view_case(tuple(r["args"]))
+        print(res)
+        return bool(res["fails"])
     if r.get("kind") == "order":
         res = order_case((r["args"][0], tuple(r["args"][1]), r["args"][2]))
         print(res)
